@@ -19,14 +19,14 @@ strengthened = [json.load(open(os.path.join(d, "meta.json")))["caught_by"] for d
                 if "missed" in json.load(open(os.path.join(d, "meta.json")))["caught_by"].lower()]
 text = f"""## 14. Seeded changes: which checks catch which
 
-{len(rows)} changes were produced, in two rounds, by fresh sub-agents that were given only the text of
+{len(rows)} changes were produced, in six rounds, by fresh sub-agents that were given only the text of
 one property and a scratch worktree of `/repo` (nothing from `/verif`); changes that merely repeated an
 earlier one were not stored.  Each compiles, passes the 49 + 1 existing
 tests, and breaks the property on a demonstration the agent delivered; each was confirmed by me
 in a separate worktree (`tools/confirm_seed.sh`: suite with the patch, demo with and without) before
 it was stored as `seeded/<id>/` (`patch.diff`, `demo/`, `notes.md`, `meta.json`).  None is ever
-committed to `/repo`.  `tools/seed_regression.py` applies each in turn to `/repo`, runs the quick
-check of its property, undoes it, and writes `seeded/REGRESSION.json`; the table below is
+committed to `/repo`.  `tools/seed_regression.py` applies each in turn to a scratch worktree of `/repo`'s HEAD, runs the quick
+check of its property against it (`SLT_REPO`), and writes `seeded/REGRESSION.json`; the table below is
 generated from that file (last run at `/repo` {next(iter(reg.values()))['repo_head']}: every change is caught by the
 quick tier).  "How" names the replay kinds the check produced: `diff_<profile>` = the model and the
 implementation disagree on a generated case of that profile (rule K), `oracle_<profile>` = an
